@@ -249,7 +249,7 @@ def classify_ext(name):
             if re.search(pat, head):
                 return ("forbidden", why)
     head = callee_head(inner)
-    if "std::time::Instant" in head:
+    if head.startswith("std::time::Instant::") or head.startswith("<std::time::Instant as"):
         if INSTANT_OK.search(inner):
             return ("instant_ok",)
         return ("forbidden", "Instant operation other than arithmetic/comparison")
